@@ -11,6 +11,7 @@ import scipy.linalg as sla
 
 from EasyFEA import AlgoType, Models, Simulations
 
+from . import _suite
 from ..core import Ctx, quiet, relerr
 from ..gen import meshes as gm
 from ..ref import time_schemes as ts
@@ -74,6 +75,9 @@ def cases(tier: str, seed: int) -> list[dict]:
     for i, c in enumerate(out):
         c["id"] = f"C05-{i:05d}-{c['sc']}-{c['kind']}-{'+'.join(c['algos']) if len(c['algos']) < 3 else 'switching'}"
         c["index"] = i
+    for c in _suite.suite_cases(PROP, tier):
+        c["index"] = len(out)
+        out.append(c)
     return out
 
 
@@ -231,6 +235,8 @@ def _states(simu):
 
 
 def run_case(case: dict, ctx: Ctx) -> None:
+    if case.get("fam") == "suite":
+        return _suite.run_suite(case, ctx, PROP)
     rng = np.random.default_rng([case["seed"], NUM, case["index"]])
     {"steps": run_steps, "energy": run_energy, "newton": run_newton}[case["sc"]](case, ctx, rng)
 
